@@ -19,7 +19,7 @@ func init() {
 		ID:    "C18",
 		Level: "fault_enumeration",
 		Rule: "reader: generated streams x every byte offset (all offsets for small streams, strided + random for larger) as the point where the reader fails with a sentinel error after a partial read (the error on the following Read, or together with the last bytes delivered), " +
-			"x reader kinds {seekable, plain, bufio} x {explicit, auto} x {NextPacket, NextData}; seeker: the Seek call of packet-size detection or of Rewind (after 0..5 calls) fails: no panic, no silent loss when no error is surfaced, a later Rewind with a working Seek restarts like a fresh Demuxer; the reader failing during a second pass, after the stream was read to its end and rewound; writer: Muxer histories (WriteTables / WriteData ending in packets with 0, 1, 2, many stuffing bytes / WritePacket) " +
+			"x reader kinds {seekable, plain, bufio} x {explicit, auto} x {NextPacket, NextData}; seeker: the Seek call of packet-size detection or of Rewind (after 0..5 calls) fails: no panic, no silent loss when no error is surfaced, a later Rewind with a working Seek restarts like a fresh Demuxer; the reader failing during a second pass, after the stream was read to its end and rewound; a quarter of the permanent reader faults with the context cancelled at the moment of the failure; writer: Muxer histories (WriteTables / WriteData ending in packets with 0, 1, 2, many stuffing bytes / WritePacket) " +
 			"re-run with the k-th Write call failing, for every k of the fault-free run, permanently and once, accepting 0 or a partial count; the same over sessions holding one unit of 47 091 bytes .. 1 MiB (stage writer-big); distinct = (stream or history, fault position, mode); " +
 			"non-trivial = the fault was actually injected during an API call",
 		Assumptions: []string{"for a bufio.Reader the pending call is the first call that returns an error (bufio delays the failure)", "after the first surfaced error the run stops: later behaviour is not part of the property"},
@@ -200,10 +200,24 @@ func (temporaryErr) Timeout() bool   { return true }
 func readerFault1(c *mon.Ctx, idx int64, input []byte, cfg DemuxCfg, base []Item, f int, withData bool) {
 	cfg.HasFail, cfg.FailAt, cfg.FailWithData = true, f, withData
 	data := map[string]any{"config": cfg.String(), "fail_at": f, "stream": mon.Hex(input, 1200)}
+	// a quarter of the faults with the context of the Demuxer cancelled at the very moment the reader fails (a supervisor reacting
+	// to the same failure): the pending call still reports what the reader said
+	var cancel context.CancelFunc
+	if (int(idx)+f)%4 == 3 && !withData && !cfg.FailOnce {
+		// (a failure that comes with the bytes that complete a read, or that goes away, may not surface in the pending call at all:
+		// the next call would then start under a cancelled context, which is another matter)
+		cfg.Ctx, cancel = context.WithCancel(context.Background())
+		defer cancel()
+	}
 	dmx, tap := NewDemuxerFor(input, cfg)
 	cls := cfg.Reader + "/" + sizeCls(cfg.PacketSize) + "/" + cfg.API
 	if withData {
 		cls += "/error-with-data"
+	}
+	if cancel != nil {
+		cls += "/context-cancelled-with-the-failure"
+		tap.OnFail = cancel
+		c.Count("reader_faults_with_the_context_cancelled_at_the_failure")
 	}
 	cause := mon.ErrInjected
 	if cfg.FailErr != nil {
